@@ -469,7 +469,8 @@ theorem parse_dict_group_mid {mt : Bytes} {G : Tag} {C : List DNode} (hg : FlatG
     (hbl : atoi t9.value = .ok ((fieldsLength (t8 :: t9 :: t35 :: ((preA ++ g0 :: M) ++ (z0 :: postB ++ [t10]))) : Nat) : Int)) :
     ∃ m, parseMessage Fixes.cur d (wireOf (t8 :: t9 :: t35 :: ((preA ++ g0 :: M) ++ (z0 :: postB ++ [t10])))) = .ok m ∧
       m.fields = t8 :: t9 :: t35 :: ((preA ++ g0 :: M) ++ (z0 :: postB ++ [t10])) ∧
-      alFind m.body.lookup G = some (.view (3 + preA.length) (1 + M.length)) := by
+      alFind m.body.lookup G = some (.view (3 + preA.length) (1 + M.length)) ∧
+      ((∀ tv ∈ postB, tv.tag ≠ z0.tag) → alFind m.body.lookup z0.tag = some (.view (3 + preA.length + 1 + M.length) 1)) := by
   have hz0 := hz z0 (by simp)
   have hrestW : ∀ tv ∈ (preA ++ g0 :: M) ++ (z0 :: postB ++ [t10]), IsWire tv := by
     intro tv htv
@@ -548,16 +549,26 @@ theorem parse_dict_group_mid {mt : Bytes} {G : Tag} {C : List DNode} (hg : FlatG
     show (runNDD d _ postB _ c4).xmlDataMsg = false
     rw [runNDD_xml]; exact hc4xm
   rw [finish_ok _ C5 t9 e9 (by simp) hbl hxm5]
-  refine ⟨_, rfl, rfl, ?_⟩
-  show alFind (finishAdjust C5).body.lookup G = _
-  rw [(finishAdjust_keeps _).2.2.1, hC5hb.2]
-  show alFind ((runNDD d _ postB _ c4).sec .b).lookup G = _
-  rw [runNDD_find_absent G .b postB _ _ c4 (fun tv h => hzG tv (by simp [h]))]
-  show alFind c4.body.lookup G = _
-  rw [hc4b]
-  simp only [FieldMap.add]
-  rw [alFind_insert_other _ _ _ _ (fun e => hzG z0 (by simp) e.symm), hG, alFind_insert_self]
-  congr 2; omega
+  refine ⟨_, rfl, rfl, ?_, ?_⟩
+  · show alFind (finishAdjust C5).body.lookup G = _
+    rw [(finishAdjust_keeps _).2.2.1, hC5hb.2]
+    show alFind ((runNDD d _ postB _ c4).sec .b).lookup G = _
+    rw [runNDD_find_absent G .b postB _ _ c4 (fun tv h => hzG tv (by simp [h]))]
+    show alFind c4.body.lookup G = _
+    rw [hc4b]
+    simp only [FieldMap.add]
+    rw [alFind_insert_other _ _ _ _ (fun e => hzG z0 (by simp) e.symm), hG, alFind_insert_self]
+    congr 2; omega
+  · -- the field behind the group is found in the body
+    intro hpz
+    show alFind (finishAdjust C5).body.lookup z0.tag = _
+    rw [(finishAdjust_keeps _).2.2.1, hC5hb.2]
+    show alFind ((runNDD d _ postB _ c4).sec .b).lookup z0.tag = _
+    rw [runNDD_find_absent z0.tag .b postB _ _ c4 hpz]
+    show alFind c4.body.lookup z0.tag = _
+    rw [hc4b]
+    simp only [FieldMap.add]
+    exact alFind_insert_self _ _ _
 
 
 /-! ## reading the group back through the dictionary's template -/
